@@ -630,6 +630,27 @@ class Merger:
                 # re-definitions.
                 Anchors.replace_anchor(self.data, lhs_anchor, rhs_anchor)
 
+    def _replace_target(self, data: Any, old_node: Any, new_node: Any) -> None:
+        """
+        Replace a merge target within the LHS document with its merge result.
+
+        Necessary whenever merging produces a new node (RIGHT modes, or UNIQUE
+        Array merges) rather than changing the target in place and the target
+        is not the document root.
+        """
+        if isinstance(data, dict):
+            for key, val in data.items():
+                if val is old_node:
+                    data[key] = new_node
+                else:
+                    self._replace_target(val, old_node, new_node)
+        elif isinstance(data, list):
+            for idx, ele in enumerate(data):
+                if ele is old_node:
+                    data[idx] = new_node
+                else:
+                    self._replace_target(ele, old_node, new_node)
+
     def _insert_dict(
         self, insert_at: YAMLPath,
         lhs: Union[CommentedMap, CommentedSeq, CommentedSet],
@@ -690,6 +711,8 @@ class Merger:
 
         if insert_at.is_root:
             self.data = merged_data
+        elif merged_data is not lhs:
+            self._replace_target(self.data, lhs, merged_data)
         return merge_performed
 
     def _insert_list(
@@ -735,6 +758,8 @@ class Merger:
 
         if insert_at.is_root:
             self.data = merged_data
+        elif merged_data is not lhs:
+            self._replace_target(self.data, lhs, merged_data)
         return merge_performed
 
     def _insert_set(
@@ -780,6 +805,8 @@ class Merger:
 
         if insert_at.is_root:
             self.data = merged_data
+        elif merged_data is not lhs:
+            self._replace_target(self.data, lhs, merged_data)
         return merge_performed
 
     def _insert_scalar(
@@ -800,6 +827,8 @@ class Merger:
                 NodeCoords(rhs, None, None))
             if insert_at.is_root:
                 self.data = merged_set
+            elif merged_set is not lhs:
+                self._replace_target(self.data, lhs, merged_set)
             merge_performed = True
         elif isinstance(lhs, CommentedMap):
             ex_message = (
